@@ -319,6 +319,7 @@ func Run(cfg Config, mainFn func()) *Result {
 	resetPools()
 	resetTimers()
 	resetTickers()
+	pendingWriters = nil
 	s.nsPerStep = cfg.NsPerStep
 	if s.nsPerStep <= 0 {
 		s.nsPerStep = defaultNsPerStep
@@ -674,10 +675,55 @@ func Lock(mu tryLocker, site int) {
 		mu.Lock()
 		return
 	}
-	for !mu.TryLock() {
-		lockFail(s, lockKey(mu), site)
+	if !mu.TryLock() {
+		// a writer that waits keeps new readers out (sync.RWMutex: a blocked Lock excludes new
+		// RLocks, so a task that read-locks twice deadlocks against a writer in between)
+		key := lockKey(mu)
+		pendingWriter(key, 1)
+		defer pendingWriter(key, -1)
+		for !mu.TryLock() {
+			lockFail(s, key, site)
+		}
 	}
 	acquired(s, site)
+}
+
+// pendingWriters counts, per mutex, the tasks blocked in Lock (slice searched linearly, touched
+// under the baton only).
+var pendingWriters []struct {
+	key uintptr
+	n   int
+}
+
+//go:norace
+func pendingWriter(key uintptr, d int) {
+	for i := range pendingWriters {
+		if pendingWriters[i].key == key {
+			pendingWriters[i].n += d
+			if pendingWriters[i].n <= 0 {
+				last := len(pendingWriters) - 1
+				pendingWriters[i] = pendingWriters[last]
+				pendingWriters = pendingWriters[:last]
+			}
+			return
+		}
+	}
+	if d > 0 {
+		pendingWriters = append(pendingWriters, struct {
+			key uintptr
+			n   int
+		}{key, d})
+	}
+}
+
+//go:norace
+func writerPending(key uintptr) bool {
+	for i := range pendingWriters {
+		if pendingWriters[i].key == key {
+			return true
+		}
+	}
+	return false
 }
 
 type tryRLocker interface {
@@ -692,8 +738,9 @@ func RLock(mu tryRLocker, site int) {
 		mu.RLock()
 		return
 	}
-	for !mu.TryRLock() {
-		lockFail(s, lockKey(mu), site)
+	key := lockKey(mu)
+	for writerPending(key) || !mu.TryRLock() {
+		lockFail(s, key, site)
 	}
 	acquired(s, site)
 }
